@@ -10,7 +10,9 @@ import (
 	"time"
 
 	"github.com/advancedclimatesystems/gonnx"
+	"github.com/advancedclimatesystems/gonnx/onnx"
 	"github.com/advancedclimatesystems/gonnx/ops/opset13"
+	"google.golang.org/protobuf/proto"
 	"gorgonia.org/tensor"
 )
 
@@ -56,12 +58,15 @@ func genC17(dir, tier string, seed int64) {
 			}
 		}
 	}
-	res := goOnlyResult{Stream: "C17_goroutines", Rule: "for the sample models and single-node models from every fixture (all inputs after the first as shared weights; Scaler/LinearRegressor/Constant attribute tensors included): 2, 4, 8 and 16 goroutines released by one barrier, each performing a sequence of Runs on ONE shared Model with its own input tensors (one Run in five with an input whose last axis is one too long, so that it fails inside an operator, or not, exactly as it does alone), with concurrent NewModelFromBytes calls in the background; every output compared bit for bit with the sequential baseline; the binary is built with the Go race detector (a report is a violation)", Violations: []string{}}
+	res := goOnlyResult{Stream: "C17_goroutines", Rule: "for the sample models and single-node models from every fixture (all inputs after the first as shared weights; Scaler/LinearRegressor/Constant attribute tensors included): 2, 4, 8 and 16 goroutines released by one barrier, each performing a sequence of Runs on ONE shared Model with its own input tensors (one Run in five with an input whose last axis is one too long, so that it fails inside an operator, or not, exactly as it does alone), with a background goroutine that keeps loading further Models (from the bytes and from the very ModelProto object the shared Model was built from) and running a model with an unimplemented operator (which fails); every output compared bit for bit with the sequential baseline; the binary is built with the Go race detector (a report is a violation)", Violations: []string{}}
 	rounds := 1
 	runsPer := 24
 	if tier == "thorough" {
 		rounds, runsPer = 3, 40
 	}
+	unknownOpModel, _ := proto.Marshal(&onnx.ModelProto{IrVersion: 7, OpsetImport: []*onnx.OperatorSetIdProto{{Version: 13}}, Graph: &onnx.GraphProto{
+		Input: []*onnx.ValueInfoProto{{Name: "x"}}, Output: []*onnx.ValueInfoProto{{Name: "y"}},
+		Node: []*onnx.NodeProto{{OpType: "Abs", Input: []string{"x"}, Output: []string{"a"}}, {OpType: "Mish", Input: []string{"a"}, Output: []string{"y"}}}}})
 	hung := false
 	for _, cm := range models {
 		if hung {
@@ -129,7 +134,12 @@ func genC17(dir, tier string, seed int64) {
 					continue // quick tier: one goroutine count per fixture model (always one), all four for the sample models
 				}
 				res.N++
-				shared, err := gonnx.NewModelFromBytes(cm.bytes)
+				// the shared Model is built from a ModelProto object that the background loader keeps loading from
+				sharedProto := &onnx.ModelProto{}
+				if proto.Unmarshal(cm.bytes, sharedProto) != nil {
+					continue
+				}
+				shared, err := gonnx.NewModel(sharedProto)
 				if err != nil {
 					continue
 				}
@@ -149,6 +159,10 @@ func genC17(dir, tier string, seed int64) {
 							return
 						default:
 							gonnx.NewModelFromBytes(modelBytes)
+							gonnx.NewModel(sharedProto) // from the very proto the running Model was built from
+							if um, err := gonnx.NewModelFromBytes(unknownOpModel); err == nil {
+								runRec(um, gonnx.Tensors{"x": tensor.New(tensor.WithShape(2), tensor.WithBacking([]float32{1, 2}))}) // fails: unsupported operator
+							}
 						}
 					}
 				}()
